@@ -855,12 +855,20 @@ func (c *control) dirInt(colon, at bool, params []any, base int) {
 	default:
 		neg = true // stops @ addition of a +
 		colon = false
+		// A non-integer is printed in ~A format and decimal base.
 		p := *slip.DefaultPrinter()
 		p.ScopedUpdate(c.scope)
-		p.Escape = true
-		p.Readably = true
+		p.Escape = false
+		p.Readably = false
 		p.Base = 10
-		out = p.Append(nil, ta, 0)
+		p.Radix = false
+		if ss, ok := ta.(slip.String); ok {
+			out = append(out, ss...)
+		} else if sa, ok := ta.(slip.ScopedAppender); ok {
+			out = sa.ScopedAppend(nil, c.scope, &p, 0)
+		} else {
+			out = p.Append(nil, ta, 0)
+		}
 	}
 	if at && !neg {
 		out = append([]byte{'+'}, out...)
